@@ -41,10 +41,11 @@ var bodyPkgs = map[string]bool{
 	"strings": true, "strconv": true, "time": true, "unicode/utf8": true, "unicode": true, "errors": true, "math": true,
 	"github.com/google/fhir/go/proto/google/fhir/proto/r4/core/datatypes_go_proto": true,
 	"github.com/shopspring/decimal": true,
+	"net/url": true,
 }
 
 var execStdPkgs = map[string]bool{
-	"time": true,
+	"time": true, "net/url": true,
 	"strings": true, "strconv": true, "unicode": true, "slices": true, "sort": true, "cmp": true,
 }
 
@@ -66,7 +67,7 @@ func (p *Program) skipInit(pkgPath string) bool {
 		return true
 	}
 	switch strings.TrimPrefix(pkgPath, RepoModule+"/") {
-	case "internal/protofields", "internal/resource", "internal/fhirtest", "internal/containedresource", "internal/bundle":
+	case "internal/protofields", "internal/fhirtest", "internal/containedresource", "internal/bundle":
 		return true
 	}
 	return false
